@@ -42,6 +42,8 @@ def parseAct (tok : String) : Option Act :=
   | ['h'] => some .hs
   | ['c'] => some .close
   | ['r'] => some .reset
+  | ['z'] => some .pause
+  | ['Z'] => some .resume
   | 'w' :: r => (hexBytes (restOf r)).map .write
   | 's' :: r => (restOf r).toNat?.map .sleep
   | 'e' :: r => (restOf r).toNat?.map .waitEof
@@ -49,8 +51,13 @@ def parseAct (tok : String) : Option Act :=
 
 def parseSubAct (tok : String) : Option SubAct :=
   match tok.toList with
-  | ['h'] => some .hs
+  | ['h'] => some (.hs 1)
+  | 'h' :: r => (restOf r).toNat?.map .hs
   | 's' :: r => (restOf r).toNat?.map .sleep
+  | 'B' :: r =>
+    match (restOf r).splitOn "x" with
+    | [n, sz] => do let n ← n.toNat?; let sz ← sz.toNat?; pure (.big n sz)
+    | _ => none
   | 'm' :: r =>
     match (restOf r).splitOn ":" with
     | [n, items] => (parseItems n items).map .submit
@@ -68,6 +75,7 @@ def parseScriptAux : Sect → List String → Script → Option Script
       | .opts =>
         match tok.splitOn "=" with
         | ["mode", v] => parseScriptAux sect rest { sc with binary := v = "b" }
+        | ["modes", v] => parseScriptAux sect rest { sc with modes := v.toList.map (· = 'b') }
         | ["retry", v] => do let n ← v.toNat?; parseScriptAux sect rest { sc with retryS := n }
         | ["end", v] => do let n ← v.toNat?; parseScriptAux sect rest { sc with endMs := n }
         | ["voc", v] =>
@@ -114,6 +122,8 @@ def parseEv (tok : String) : Option TEv := do
     | ["heap", n] => n.toNat?.map .heap
     | ["det", b] => (parseBool b).map .det
     | ["dec", i, n, items] => do let i ← i.toNat?; let l ← parseItems n items; pure (.dec i l)
+    | ["dex", i, n, items] => do let i ← i.toNat?; let l ← parseItems n items; pure (.dex i l)
+    | ["big", g, i, n, sz] => do let g ← g.toNat?; let i ← i.toNat?; let n ← n.toNat?; let sz ← sz.toNat?; pure (.big g i n sz)
     | ["ping", b] => (hexBytes b).map .ping
     | "panic" :: _ => some .panic
     | _ => some .other
@@ -148,16 +158,22 @@ structure ConnModel where
   stop : Option (Net.Stop × Nat)
   tight : Bool
 
+/-- the mode the *model* negotiates on a connection: `classifyClient` applied to what this connection's script
+replies to the probe (the actions before the handshake marker) — a function of this connection alone -/
+def modelBinary (_k : Nat) (acts : List Act) : Bool :=
+  let ps := Spec.Net.probeScriptOf (acts.takeWhile (· != .hs))
+  (Net.classifyClient (Net.replyOf ps.delay ps.reply ps.closes Gen.clientProbeBuf)).binary
+
 def modelConn (sc : Script) (tr : Trace) (k : Nat) (acts : List Act) (w : Window) : Option ConnModel := do
   let da := Spec.Net.dataActs acts
   let ts ← timedScript tr k da w.con.t
-  if sc.binary then
+  if modelBinary k acts then
     let o := Net.runT Net.repaired Spec.Net.margin (Net.CState.init w.con.t) ts {}
-    let d ← Spec.Net.decodeAll sc tr (Net.deliveries o.effs)
+    let d ← Spec.Net.decodeAllM sc tr true (Net.deliveries o.effs)
     pure ⟨d, o.stop, o.tight⟩
   else
     let r := Net.runA w.con.t [] ts {} ({}, [])
-    let d ← Spec.Net.decodeAll sc tr r.2
+    let d ← Spec.Net.decodeAllM sc tr false r.2
     pure ⟨d, r.1.stop, false⟩
 
 def absDiff (a b : Nat) : Nat := if a ≤ b then b - a else a - b
@@ -178,7 +194,7 @@ def compareConn (sc : Script) (tr : Trace) (k : Nat) (acts : List Act) (w : Opti
           match w.dis with
           | some d => droppedBeforeCancel && d.e == .dis false && decide (absDiff d.t t ≤ Spec.Net.tol)
           | none => false
-      let modeOk := match w.con.e with | .con b _ => b == sc.binary | _ => false
+      let modeOk := match w.con.e with | .con b _ => b == modelBinary k acts | _ => false
       let desc := s!"conn{k}:deliveries={m.delivered.length}/{(Spec.Net.msgsOf w.body).length},stop=" ++
         (match m.stop with
          | none => "none"
@@ -236,11 +252,15 @@ def findOrder : Nat → List Bytes → List (List (List Bytes)) → Option (List
         | _ => none)
 
 def compareC09 (sc : Script) (tr : Trace) : Bool × String :=
-  let ascii := !sc.binary
+  -- the connection that is up at the end: its writer (and only its writer) takes what is handed over after its onconnect
+  let kLast := sc.conns.length - 1
+  let ascii := !(modelBinary kLast ((sc.conns[kLast]?).getD []))
   let gs := List.range sc.subs.length
-  let pending := gs.map (fun g => Spec.Net.subsOf ascii g tr)
+  let after := Spec.Net.afterNthCon (kLast + 1) tr
+  if Spec.Net.anyEv Spec.Net.isBig after then (true, "unlisted-submission") else
+  let pending := gs.map (fun g => Spec.Net.subsOf ascii g after)
   let nsub := (pending.map List.length).sum
-  let rx := Spec.Net.rxBytes 0 tr
+  let rx := Spec.Net.rxBytes kLast tr
   let pre := Net.probeBytes [8, 1] ++ (if ascii then [10] else [])
   let data := rx.drop pre.length
   let units := if ascii then (Spec.Net.splitLF data).1 else (Spec.Net.parse 4294967296 data).1
